@@ -7,7 +7,7 @@
 //!
 //! One history per line:
 //!   1 <rules> <table> cur prev nsteps step*
-//!   step = t_s t_ns(s ns) <client> port tcp <local> b1 b2 <nsid text> <issued cookie> <query> nup {srv tcp <octets>}*
+//!   step = t_s t_ns(s ns) t_ins(s ns) <client> port tcp <local> b1 b2 <nsid text> <issued cookie> <query> nup {srv tcp <octets>}*
 //!          <udp answer> <tcp answer> <reply>   [replay block: sleep_ms nscript script*]
 #[path = "../util.rs"]
 mod util;
@@ -354,12 +354,14 @@ async fn run_history(h: &Hist) -> Option<Toks> {
                 reply = Some(buf[..l].to_vec());
             }
         }
+        let t_after = t0.elapsed();
         // let the upstream tasks record what is still in their queues (retransmissions)
         for _ in 0..3 {
             tokio::task::yield_now().await;
         }
         let (b1, b2) = hk::limiter_buckets(IpAddr::V4(cip));
         t.n(t_s).n(t_ns.as_secs()).n(t_ns.subsec_nanos() as u64);
+        t.n(t_after.as_secs()).n(t_after.subsec_nanos() as u64); // the reply is here: the result has been stored
         t.n(4).n(u32::from(cip) as u64).n(sport as u64).b(s.tcp);
         t.n(4).n(u32::from(Ipv4Addr::LOCALHOST) as u64);
         t.n(b1 as u64).n(b2 as u64);
@@ -650,7 +652,9 @@ fn parse_hist(toks: &[u64]) -> Option<Hist> {
     for _ in 0..c.n()? {
         c.n()?;
         c.n()?;
-        c.n()?; // t_s t_ns
+        c.n()?;
+        c.n()?;
+        c.n()?; // t_s t_ns t_ins
         c.n()?;
         let client = (c.n()? as u32).to_be_bytes();
         let port = c.n()?;
